@@ -134,7 +134,8 @@ theorem finish_roundtrip {p : Prims} (W : Laws p) {s : Sender p} {r : Receiver p
     ∃ z', finish r c' ((compOut s.comp (c :: body)).2.length + padding.length + 1)
         (UInt8.ofNat padding.length :: ((compOut s.comp (c :: body)).2 ++ padding)) a
         = .ok { st := { r with ciph := c', decomp := z', seq := nextSeq r.seq },
-                msg := ⟨c, body, r.seq⟩, auth := a }
+                msg := ⟨c, body, r.seq⟩, auth := a,
+                raw := (compOut s.comp (c :: body)).2.length + padding.length + 1 + r.macLen + 4 }
       ∧ ZP W (compOut s.comp (c :: body)).1 z' := by
   obtain ⟨z', h1, h2⟩ := compOut_decompIn W s.comp r.decomp hz (c :: body)
   refine ⟨z', ?_, h2⟩
@@ -338,7 +339,7 @@ theorem readMessage_step {p : Prims} (r : Receiver p) (hdr rest : Bytes) (h : hd
 theorem roundtrip1 {p : Prims} (W : Laws p) {s : Sender p} {r : Receiver p} (hp : PairedSt W s r)
     {d rnd : Bytes} {o : SendOut p} (hs : sendMessage s d rnd = .ok o) (t : Bytes) :
     ∃ o' c body, d = c :: body ∧ runBuf (readMessage r) (o.wire ++ t) = .ok o' t ∧
-      o'.msg = ⟨c, body, s.seq⟩ ∧ o'.auth = o.auth ∧ PairedSt W o.st o'.st := by
+      o'.msg = ⟨c, body, s.seq⟩ ∧ o'.auth = o.auth ∧ PairedSt W o.st o'.st ∧ o'.raw = o.wire.length := by
   obtain ⟨hd, hroll, P, cc, a, hb, hen, hauth, hst⟩ := sendMessage_ok hs
   obtain ⟨hb0, hB⟩ := buildPacket_ok hb
   obtain ⟨padding, hpl, hsh⟩ := hB.shape
@@ -380,7 +381,7 @@ theorem roundtrip1 {p : Prims} (W : Laws p) {s : Sender p} {r : Receiver p} (hp 
       obtain ⟨hdr, rest, hhl, hsp, hrun⟩ := read_plain r (by rw [← hp.macLen]; exact hpc) h4 bodyB hps hal t
       obtain ⟨z', hf, hz⟩ := hfin .plain none
       refine ⟨{ st := { r with ciph := .plain, decomp := z', seq := nextSeq r.seq },
-                msg := ⟨c, body, r.seq⟩, auth := none }, c, body, rfl, ?_, ?_, ?_, ?_⟩
+                msg := ⟨c, body, r.seq⟩, auth := none, raw := bodyB.length + r.macLen + 4 }, c, body, rfl, ?_, ?_, ?_, ?_, ?_⟩
       · rw [hw, hPeq, hsp, readMessage_step r hdr rest hhl, hrc]
         simp only
         rw [hrun, hf]; rfl
@@ -388,6 +389,8 @@ theorem roundtrip1 {p : Prims} (W : Laws p) {s : Sender p} {r : Receiver p} (hp 
       · simp only; rw [hauth, ha]
       · rw [hst, hcc]
         exact ⟨hp.block, hp.macLen, by simp only; rw [hp.seq], hp.kex, hp.blk4, by simp only; exact hpc, hz⟩
+      · simp only
+        rw [hw, hPeq, List.length_append, be32_length, ← hp.macLen, hpc]; omega
     | classic _ _ => rw [hsc, hrc] at hpc; exact absurd hpc (by simp [CiphPaired])
     | etm _ _ => rw [hsc, hrc] at hpc; exact absurd hpc (by simp [CiphPaired])
     | aead _ _ => rw [hsc, hrc] at hpc; exact absurd hpc (by simp [CiphPaired])
@@ -412,8 +415,9 @@ theorem roundtrip1 {p : Prims} (W : Laws p) {s : Sender p} {r : Receiver p} (hp 
         (if r.macLen > 0 then some ⟨r.seq, [], be32 bodyB.length ++ bodyB⟩ else none)
       refine ⟨{ st := { r with ciph := .classic sd' mk, decomp := z', seq := nextSeq r.seq },
                 msg := ⟨c, body, r.seq⟩,
-                auth := if r.macLen > 0 then some ⟨r.seq, [], be32 bodyB.length ++ bodyB⟩ else none },
-              c, body, rfl, ?_, ?_, ?_, ?_⟩
+                auth := if r.macLen > 0 then some ⟨r.seq, [], be32 bodyB.length ++ bodyB⟩ else none,
+                raw := bodyB.length + r.macLen + 4 },
+              c, body, rfl, ?_, ?_, ?_, ?_, ?_⟩
       · rw [← hw, hPeq, hp.seq, hp.macLen, hsp, readMessage_step r hdr rest hhl, hrc]
         simp only
         rw [hrun, hf]; rfl
@@ -423,6 +427,10 @@ theorem roundtrip1 {p : Prims} (W : Laws p) {s : Sender p} {r : Receiver p} (hp 
         refine ⟨hp.block, hp.macLen, by simp only; rw [hp.seq], hp.kex, hp.blk4, ?_, hz⟩
         simp only [CiphPaired]
         exact ⟨trivial, by rw [hPeq]; exact hPd', by rw [W.ciph.blk_enc]; exact hblk, hmac⟩
+      · simp only
+        have hPl : P.length = 4 + bodyB.length := by rw [hPeq, List.length_append, be32_length]
+        rw [← hw, List.length_append, W.ciph.enc_len se P (by rw [hblk, hp.block, hPl]; exact hal), hPl,
+          List.length_take, Nat.min_eq_left (hmac _), hp.macLen]; omega
     | plain => rw [hsc, hrc] at hpc; exact absurd hpc (by simp [CiphPaired])
     | etm _ _ => rw [hsc, hrc] at hpc; exact absurd hpc (by simp [CiphPaired])
     | aead _ _ => rw [hsc, hrc] at hpc; exact absurd hpc (by simp [CiphPaired])
@@ -449,8 +457,9 @@ theorem roundtrip1 {p : Prims} (W : Laws p) {s : Sender p} {r : Receiver p} (hp 
         (some ⟨r.seq, [], be32 bodyB.length ++ (p.enc se bodyB).2⟩)
       refine ⟨{ st := { r with ciph := .etm (p.dec sd (p.enc se bodyB).2).1 mk, decomp := z', seq := nextSeq r.seq },
                 msg := ⟨c, body, r.seq⟩,
-                auth := some ⟨r.seq, [], be32 bodyB.length ++ (p.enc se bodyB).2⟩ },
-              c, body, rfl, ?_, ?_, ?_, ?_⟩
+                auth := some ⟨r.seq, [], be32 bodyB.length ++ (p.enc se bodyB).2⟩,
+                raw := bodyB.length + r.macLen + 4 },
+              c, body, rfl, ?_, ?_, ?_, ?_, ?_⟩
       · rw [← hw, hp.seq, hp.macLen, hsp, readMessage_step r hdr rest hhl, hrc]
         simp only
         rw [hrun, hf]; rfl
@@ -460,6 +469,9 @@ theorem roundtrip1 {p : Prims} (W : Laws p) {s : Sender p} {r : Receiver p} (hp 
         refine ⟨hp.block, hp.macLen, by simp only; rw [hp.seq], hp.kex, hp.blk4, ?_, hz⟩
         simp only [CiphPaired]
         exact ⟨trivial, (W.ciph.dec_enc se sd bodyB hPd hbal).2, by rw [W.ciph.blk_enc]; exact hblk, hmac⟩
+      · simp only
+        rw [← hw, List.length_append, List.length_append, be32_length, W.ciph.enc_len se bodyB hbal,
+          List.length_take, Nat.min_eq_left (hmac _), hp.macLen]; omega
     | plain => rw [hsc, hrc] at hpc; exact absurd hpc (by simp [CiphPaired])
     | classic _ _ => rw [hsc, hrc] at hpc; exact absurd hpc (by simp [CiphPaired])
     | aead _ _ => rw [hsc, hrc] at hpc; exact absurd hpc (by simp [CiphPaired])
@@ -489,8 +501,9 @@ theorem roundtrip1 {p : Prims} (W : Laws p) {s : Sender p} {r : Receiver p} (hp 
           (some ⟨r.seq, iv, be32 bodyB.length ++ p.aenc k iv bodyB (be32 bodyB.length)⟩)
         refine ⟨{ st := { r with ciph := .aead k iv', decomp := z', seq := nextSeq r.seq },
                   msg := ⟨c, body, r.seq⟩,
-                  auth := some ⟨r.seq, iv, be32 bodyB.length ++ p.aenc k iv bodyB (be32 bodyB.length)⟩ },
-                c, body, rfl, ?_, ?_, ?_, ?_⟩
+                  auth := some ⟨r.seq, iv, be32 bodyB.length ++ p.aenc k iv bodyB (be32 bodyB.length)⟩,
+                  raw := bodyB.length + r.macLen + 4 },
+                c, body, rfl, ?_, ?_, ?_, ?_, ?_⟩
         · rw [← hw, hsp, readMessage_step r hdr rest hhl, hrc]
           simp only
           rw [hrun, hf]; rfl
@@ -500,6 +513,8 @@ theorem roundtrip1 {p : Prims} (W : Laws p) {s : Sender p} {r : Receiver p} (hp 
           refine ⟨hp.block, hp.macLen, by simp only; rw [hp.seq], hp.kex, hp.blk4, ?_, hz⟩
           simp only [CiphPaired]
           exact ⟨trivial, trivial, hml⟩
+        · simp only
+          rw [← hw, List.length_append, be32_length, W.aead.aenc_len, ← hp.macLen, hml]; omega
     | plain => rw [hsc, hrc] at hpc; exact absurd hpc (by simp [CiphPaired])
     | classic _ _ => rw [hsc, hrc] at hpc; exact absurd hpc (by simp [CiphPaired])
     | etm _ _ => rw [hsc, hrc] at hpc; exact absurd hpc (by simp [CiphPaired])
@@ -549,7 +564,7 @@ theorem roundtrip_seq {p : Prims} (W : Laws p) (ops : List (Op p)) :
           simp only [Prod.mk.injEq] at this
           obtain ⟨h1, h2, h3⟩ := this
           subst h1; subst h2; subst h3
-          obtain ⟨o', c, body, hd, hrun, hmsg, hauth, hp'⟩ := roundtrip1 W hp hsm (w1 ++ t)
+          obtain ⟨o', c, body, hd, hrun, hmsg, hauth, hp', hraw⟩ := roundtrip1 W hp hsm (w1 ++ t)
           have hseq' : o.st.seq = nextSeq s.seq := by
             obtain ⟨_, _, _, _, _, _, _, _, hst⟩ := sendMessage_ok hsm
             rw [hst]
